@@ -26,8 +26,11 @@ fn main() {
         "C12" => c12::run(&cli),
         "C09" => c09::run(&cli),
         "C08" => c08::run(&cli),
-        "BENCH" => bench::run(),
-        "BENCH2" => bench::run2(),
+        "BENCH" => {
+            bench::run();
+            bench::run2();
+            util::scratch_cleanup();
+        }
         other => machinery_failure(&format!("vh-db does not serve {other}")),
     }
 }
